@@ -3,7 +3,7 @@ import TwistedProps.C15.Handlers
 C15 lemmas — the clean-close phases.  A closer `a` (with its socket `ka`) and its peer `b` (`kb`):
 
   `L1`  a called loseConnection and is flushing; b is open and reading
-  `L2`  a flushed, got CONNECTION_DONE from doWrite and closed its socket; b drains its queue
+  `L2`  a flushed, got CONNECTION_DONE from doWrite0 and closed its socket; b drains its queue
   `L3`  b (half-closeable, reacting to readConnectionLost with loseConnection) is closing
   `L4`  both protocols were told ConnectionDone, both sockets closed, nothing discarded
 
@@ -74,7 +74,7 @@ macro "close_phase " H:ident ", " h:ident : tactic =>
              simp [$H:ident, $h:ident] <;> exact ($H).1))
 
 theorem L1_ioA (wd : Bool) (p : Params) (hp : 0 < p.sendLimit) (v : View) (b : Conn) (i o h : Bool) (nr nw : Nat)
-    (hs : L1 wd v.c b v.k v.pk) : LoseA wd b (io p v i o h nr nw) := by
+    (hs : L1 wd v.c b v.k v.pk) : LoseA wd b (io0 p v i o h nr nw) := by
   have H := hs
   simp only [L1, ClosingC, OpenC, SockOk, pending] at H
   obtain ⟨ie, oe, h1, h2, -, -, e⟩ := io_rtw p v i o h nr nw (by simp [hupCond, H]) (by simp [H])
@@ -94,7 +94,7 @@ theorem L1_ioA (wd : Bool) (p : Params) (hp : 0 < p.sendLimit) (v : View) (b : C
       close_phase H
 
 theorem L1_ioB (wd : Bool) (p : Params) (v : View) (a : Conn) (i o h : Bool) (nr nw : Nat)
-    (hs : L1 wd a v.c v.pk v.k) : LoseB wd a (io p v i o h nr nw) := by
+    (hs : L1 wd a v.c v.pk v.k) : LoseB wd a (io0 p v i o h nr nw) := by
   have H := hs
   simp only [L1, ClosingC, OpenC, SockOk, pending] at H
   obtain ⟨ie, oe, h1, h2, -, -, e⟩ := io_rtw p v i o h nr nw (by simp [hupCond, H]) (by simp [H])
@@ -113,7 +113,7 @@ theorem L1_ioB (wd : Bool) (p : Params) (v : View) (a : Conn) (i o h : Bool) (nr
     · simp [H] at hf
 
 theorem L2_ioB (wd : Bool) (p : Params) (v : View) (a : Conn) (i o h : Bool) (nr nw : Nat)
-    (hs : L2 wd a v.c v.pk v.k) : LoseB wd a (io p v i o h nr nw) := by
+    (hs : L2 wd a v.c v.pk v.k) : LoseB wd a (io0 p v i o h nr nw) := by
   have H := hs
   simp only [L2, DeadC, OpenC, SockOk, SockClosed, pending] at H
   obtain ⟨ie, oe, h1, h2, -, -, e⟩ := io_rtw p v i o h nr nw (by simp [H]) (by simp [H])
@@ -145,7 +145,7 @@ theorem L2_ioB (wd : Bool) (p : Params) (v : View) (a : Conn) (i o h : Bool) (nr
         close_phase H, hq
 
 theorem L3_ioB (p : Params) (hp : 0 < p.sendLimit) (v : View) (a : Conn) (i o h : Bool) (nr nw : Nat)
-    (hs : L3 a v.c v.pk v.k) : LoseB false a (io p v i o h nr nw) := by
+    (hs : L3 a v.c v.pk v.k) : LoseB false a (io0 p v i o h nr nw) := by
   have H := hs
   simp only [L3, DeadC, ClosingC, SockOk, SockClosed, pending] at H
   obtain ⟨ie, oe, h1, h2, -, -, e⟩ := io_rtw p v i o h nr nw (by simp [hupCond, H]) (by simp [H])
@@ -160,7 +160,7 @@ theorem L3_ioB (p : Params) (hp : 0 < p.sendLimit) (v : View) (a : Conn) (i o h 
 
 /-- the closer's side: any readiness report keeps the system inside the clean-close phases -/
 theorem lose_ioA (wd : Bool) (p : Params) (hp : 0 < p.sendLimit) (v : View) (b : Conn) (i o h : Bool) (nr nw : Nat)
-    (hs : LoseA wd b v) : LoseA wd b (io p v i o h nr nw) := by
+    (hs : LoseA wd b v) : LoseA wd b (io0 p v i o h nr nw) := by
   rcases hs with hs | hs | ⟨rfl, hs⟩ | hs
   · exact L1_ioA wd p hp v b i o h nr nw hs
   · rw [io_idle p v i o h nr nw hs.2.1.2.2.2.2.1 hs.2.1.2.2.2.2.2.1]; exact Or.inr (Or.inl hs)
@@ -169,7 +169,7 @@ theorem lose_ioA (wd : Bool) (p : Params) (hp : 0 < p.sendLimit) (v : View) (b :
 
 /-- the peer's side -/
 theorem lose_ioB (wd : Bool) (p : Params) (hp : 0 < p.sendLimit) (v : View) (a : Conn) (i o h : Bool) (nr nw : Nat)
-    (hs : LoseB wd a v) : LoseB wd a (io p v i o h nr nw) := by
+    (hs : LoseB wd a v) : LoseB wd a (io0 p v i o h nr nw) := by
   rcases hs with hs | hs | ⟨rfl, hs⟩ | hs
   · exact L1_ioB wd p v a i o h nr nw hs
   · exact L2_ioB wd p v a i o h nr nw hs
